@@ -23,9 +23,9 @@ Oracle (end-to-end, written from RFC 5321 section 4.5.2 and the statement):
 A mismatch whose first divergence is a body line that starts with '.' and sits
 at body offset 0 or at a FileSender chunk boundary gets its own signature
 (`leading-dot-not-stuffed:body-start|chunk-start`): that is the defect DESIGN §8
-predicts for SMTPClient.transformChunk.  In half of the runs the body generator
-avoids that precondition (knob "avoid_boundary_dots") so that every other clause
-is still exercised on full sessions.
+predicts for SMTPClient.transformChunk (genuine, REPAIRED in /repo e83a6d0).  In
+10% of the runs the body generator still avoids that precondition (knob
+"avoid_boundary_dots", kept for dev-time comparison); the others let it in.
 
 Two further families (round 4):
   * refusing message objects: with a small probability per DATA transaction one recipient's IMessage.lineReceived raises
@@ -52,6 +52,26 @@ Two further families (round 5):
     from its file), not by asking the protocols.  A body may thus take several times the idle timeout as a whole while lines
     keep arriving.  Same oracle: the transfer ends only at the client's terminator - a peer that gives up in the middle of a
     body that is still flowing shows up as a reply before the terminator / an error reply / truncated body / missing 250.
+
+Three further families (round 6), each a liberty the environment of ONE session takes (knobs DROP_P, SYNC_LINK_P/SYNC_REENTER_P,
+PULL_IN_WRITE_P; all off in most sessions):
+  * connection loss: at a tape-chosen point (mostly: so many network events after a DATA transaction began, otherwise anywhere in the
+    session) the network still hands the server 0-3 or all of the bytes in flight and then both peers lose the connection (who notices
+    first and cleanly-or-not tape-chosen).  The stream the server was given thus ends at ANY byte: inside a line, between CR and LF, right
+    behind the dot that begins a (stuffed) body line, behind the whole body but before the terminator, inside the terminator.  The oracle
+    for such a session is what the statement still says about it: every server-side message holds a prefix of the expected lines; a
+    message is completed (eomReceived) only if the client's terminator had been handed to the server - judged on the wire: the bytes
+    delivered to the server reach the end of that DATA section of the client's stream - and then holds exactly the body; the commands
+    executed are a prefix of the client's; no reply inside a body; error replies / sentMail calls are a prefix of the expected ones.
+  * synchronous pipe: the link is detsim.net.SyncLink - write() hands the bytes to the peer protocol at once (in tape-chosen pieces,
+    whole or bytewise), so the peers' reactions NEST: the server's reply to the terminator reaches the client from inside the server's
+    handling of the terminator line, the client's next command (RSET, the next MAIL/RCPT/DATA, QUIT) is written from inside that, and -
+    in SYNC_REENTER_P of these sessions - handed to the server at once as well, whenever that keeps the stream order (the server has
+    begun to handle the last line of everything it was given so far: Session._may_reenter).  The second message of a session may thus
+    begin, up to its first body piece, inside the server's call that ended the first one.  Same oracle.
+  * pull from inside write(): the client's transport asks the body producer for the next chunk as soon as it has taken one, from inside
+    write(), nested 1, 2, 6 or 40 deep (a consumer that drains as fast as it is fed; web.static's producers document "be prepared for a
+    re-entrant call").  The end of the file may then be read while earlier resumeProducing() calls are still on the stack.  Same oracle.
 """
 import io
 import traceback
@@ -75,7 +95,8 @@ RUN_WALL_LIMIT_S = 120   # runs take milliseconds; generous so that an overloade
 COMPONENTS = {"real": ["twisted.mail.smtp.SMTPClient (transformChunk, finishedFileTransfer, smtpState_*)",
                        "twisted.mail.smtp.SMTP / ESMTP (state_COMMAND, dataLineReceived)",
                        "twisted.protocols.basic.FileSender", "twisted.protocols.basic.LineReceiver/LineOnlyReceiver"],
-              "stub": ["TCP transport, delivery segmentation and pull-producer scheduling (detsim.net.Link; first pull optionally from inside registerProducer)",
+              "stub": ["TCP transport, delivery segmentation and pull-producer scheduling (detsim.net.Link; first pull optionally from inside registerProducer; "
+                       "optionally: connection loss at a tape-chosen point, a synchronous in-memory pipe (detsim.net.SyncLink) as the link, further pulls from inside write())",
                        "reactor time for both peers' idle timeouts (detsim.clock.SimClock via TimeoutMixin.callLater)",
                        "IMessageDelivery/IMessageSMTP recorder (optionally refusing data at a tape-chosen line)",
                        "message file (BytesIO recording EOF, at most its session's chunk size per read)"]}
@@ -86,6 +107,10 @@ RULE = ("run = one SMTP session of 1-2 messages, each body 1-12 LF-terminated li
         "per session p=0.5 the client's transport pulls the first body chunk from inside registerProducer(); in 30 % of the runs server/client idle "
         "timeouts are drawn from {600,30,8} / {none,600,20} s and before each event 0, 1/16, 1/4 or 1/2 of the smallest timeout passes on the simulated "
         "clock, cut so that no peer is idle (no complete line delivered to it, no body piece read) for 3/4 of its timeout; "
+        "per session p=0.15 the connection is lost (3:1 a drawn number of events {0..400} after a drawn DATA transaction began : anywhere; 0-3 or all bytes in flight "
+        "still reach the server; who notices first and cleanly-or-not drawn) and the session is judged by the truncated-session oracle; per session p=0.1 the link is a "
+        "synchronous pipe (pieces mixed/whole/bytewise; in half of them writes towards a protocol that is reacting to the end of what it was given are handed over at "
+        "once, re-entering it); per session p=0.1 the client's transport pulls the next chunk from inside write(), nested up to 1/2/6/40 deep; "
         "non-trivial = some body line starts with '.' and (a body was read in more than one chunk or the wire was segmented)")
 ASSUMPTIONS = ["bodies are non-empty sequences of LF-terminated lines without CR, each shorter than the server's line limit (<= 300 bytes here)",
                "server delivery accepts every sender and recipient",
@@ -98,9 +123,25 @@ ASSUMPTIONS = ["bodies are non-empty sequences of LF-terminated lines without CR
                "which is handed over before the 354); for a refused transaction the oracle demands: commands executed == commands sent, no reply before "
                "the client's terminator, the refusal code as the only error reply and as the client's result, message objects saw a prefix of the body and "
                "the refusing one is never completed (nothing about connectionLost counts or co-recipients being completed or not)",
-               "the two concurrent sessions share nothing but the process (classes, module state) and the simulated clock; each has its own link and file"]
+               "the two concurrent sessions share nothing but the process (classes, module state) and the simulated clock; each has its own link and file",
+               "connection loss: both peers are told (connectionLost) at the same instant, after the server was handed a tape-chosen part of what was in flight; "
+               "for such a session nothing is demanded about IMessage.connectionLost calls, about the client's reaction, or about messages the loss left incomplete "
+               "beyond: lines handed over are a prefix of the body, no eomReceived unless the whole DATA section incl. the terminator line reached the server",
+               "a transport may hand written bytes to the peer protocol from inside write() (in-memory pipes, test doubles, in-process relays do); it keeps each direction "
+               "a FIFO: bytes towards a protocol that is inside dataReceived are handed over at once only when that protocol has begun handling the last line of all "
+               "it was given (nothing unconsumed), otherwise after the running call returns",
+               "a consumer may call resumeProducing() of its pull producer from inside write() (IConsumer/IPullProducer do not forbid it); nesting is bounded (<= 40)"]
 
 CHUNKS = [2 ** 14, 1, 2, 3, 4, 5, 7, 8, 16, 64]
+# round 6 knobs (module-level constants; shares of the sessions; 0 switches a family off)
+# The last two families each met a genuine defect of the tree as first examined in round 6, both REPAIRED in /repo (99f3a0f, 785db9d; see
+# MUTANTS, 'unfixed tree'): SYNC_LINK_P x SYNC_REENTER_P is the precondition of `del self.__messages` running after the reply in
+# SMTP.dataLineReceived (second message of a session), PULL_IN_WRITE_P that of FileSender.lastSent being assigned after consumer.write().
+# The shares below are the mix of the families (not avoidance knobs); 0 switches a family off and is only for dev-time comparison.
+DROP_P = 0.15            # the connection is lost at a tape-chosen point (mostly inside a body)
+SYNC_LINK_P = 0.1        # the link is a synchronous in-memory pipe (detsim.net.SyncLink): write() hands the bytes to the peer at once
+SYNC_REENTER_P = 0.5     # ... of those: the pipe hands bytes to a protocol that is still inside dataReceived when that keeps the stream order
+PULL_IN_WRITE_P = 0.1    # the client's transport asks the body producer for the next chunk from inside write()
 TEXT = b"ab.:. X-\tz\xe9"
 
 
@@ -224,16 +265,18 @@ def make_server(base, h, hdr):
             h.server_cmds.append(line)
             return base.state_COMMAND(self, line)
 
-        def do_DATA(self, rest):
-            r = base.do_DATA(self, rest)
-            if self.mode == smtp.DATA:
-                h.data_count += 1
-            return r
+        def lineReceived(self, line):
+            h.lines_in["B"] += 1
+            return base.lineReceived(self, line)
 
         def sendCode(self, code, message=b""):
             h.codes.append(code)
             # (DATA transactions begun, terminators the client has sent so far) when this reply was produced
             h.code_ctx.append((code, h.data_count, h.client.terminators))
+            if code == 354:
+                # a DATA transaction begins with the server's 354 (counted before the reply leaves: over a synchronous link the
+                # client's reaction, up to whole body pieces, runs inside this very call)
+                h.data_count += 1
             return base.sendCode(self, code, message)
 
     if base is smtp.ESMTP:
@@ -262,20 +305,26 @@ class Client(smtp.SMTPClient):
         self.data_span = []    # [start, end) of each DATA section in transport.written
         self.data_time = []    # [simulated time at getMailData, at the terminator] of each DATA section
 
+    def lineReceived(self, line):
+        self.h.lines_in["A"] += 1
+        return smtp.SMTPClient.lineReceived(self, line)
+
     def sendLine(self, line):
         if self.in_data and line in (b".", b"\r\n."):
             self.terminators += 1
             self.in_data = False
-            r = smtp.SMTPClient.sendLine(self, line)
-            self.data_span[-1][1] = len(self.transport.written)
+            # recorded before the line leaves: over a synchronous link the rest of the session may run inside this call
+            self.data_span[-1][1] = len(self.transport.written) + len(line) + 2
             self.data_time[-1][1] = self.h.sim.clock.seconds()
-            return r
+            return smtp.SMTPClient.sendLine(self, line)
         else:
             self.cmds.append(line)
         return smtp.SMTPClient.sendLine(self, line)
 
     def getMailFrom(self):
         if len(self.files) < len(self.messages):
+            if self.files and getattr(self.h.link, "active", None) and self.h.link.active["B"]:
+                self.h.sim.probe("sync_next_message_begun_inside_the_reply_to_a_terminator")
             return self.messages[len(self.files)][0]
         return None
 
@@ -398,18 +447,44 @@ def pass_time(sim, sessions, live):
         sim.probe("time_passes_inside_body")
 
 
+class PipeLink(net.SyncLink):
+    """The synchronous pipe, with the scheduler's 'deliver' event (bytes left in flight, e.g. after a delivery raised) going through
+    the same FIFO-keeping hand-over as the writes."""
+
+    def do(self, kind, name, amount=None):
+        if kind == "deliver":
+            self.pump(name)
+        else:
+            net.SyncLink.do(self, kind, name, amount)
+
+
 class Session:
     """One SMTPClient <-> SMTP/ESMTP pair on its own link, with its own bodies, read-chunk size, refusal plan, recorders and verdicts."""
 
-    def __init__(self, sim, name, chunk, esmtp, hdr, messages, refuse, sync_pull=False, timeouts=None):
+    def __init__(self, sim, name, chunk, esmtp, hdr, messages, refuse, sync_pull=False, timeouts=None, env=None):
         self.sim, self.name = sim, name
         self.sync_pull, self.timeouts = sync_pull, timeouts
         self.chunk, self.esmtp, self.hdr, self.messages, self.refuse = chunk, esmtp, hdr, messages, refuse
         self.msgs, self.server_cmds, self.codes, self.code_ctx = [], [], [], []
         self.data_count = 0
+        self.lines_in = {"A": 0, "B": 0}          # complete lines each protocol has begun to handle
+        env = env or {}
+        self.drop = env.get("drop")               # None | plan of a connection loss (gen_env)
+        self.sync = env.get("sync")               # None | {"pieces", "reenter"}: the link is a synchronous in-memory pipe
+        self.pull_in_write = env.get("pull_in_write") or 0   # the client's transport asks for the next chunk from inside write(), nested up to this deep
+        self.pull_depth = 0
+        self.dropped = False
+        self._drop_base = None
         self.client = Client(self, [(m[0], m[1], m[2]) for m in messages])
         self.server = make_server(smtp.ESMTP if esmtp else smtp.SMTP, self, hdr)
-        self.link = net.Link(sim, self.client, self.server)
+        if self.sync:
+            self.link = PipeLink(sim, self.client, self.server, pieces=self.sync["pieces"],
+                                 reenter=self._may_reenter if self.sync["reenter"] else False)
+        else:
+            self.link = net.Link(sim, self.client, self.server)
+        if self.pull_in_write:
+            self._chained_on_write = self.link.a.on_write
+            self.link.a.on_write = self._pull_from_inside_write
         # the client's transport asks a pull producer for its first chunk from inside registerProducer() (as abstract.FileDescriptor
         # and protocols.loopback do) or leaves every pull to the scheduler (as in-memory test transports do)
         self.link.a.pull_on_register = bool(sync_pull)
@@ -442,14 +517,86 @@ class Session:
     def connect(self):
         self.started = True
         self.last_active = {"A": self.sim.clock.seconds(), "B": self.sim.clock.seconds()}
-        self._guarded(lambda: self.link.connect(a_first=False))
+        # over the synchronous pipe the server's greeting reaches the client from inside the server's makeConnection: the client is connected first
+        self._guarded(lambda: self.link.connect(a_first=bool(self.sync)))
+        if self.timeouts is not None:
+            self._note_activity()     # over the synchronous pipe the opening dialogue has already happened
 
     def step(self):
+        if self._drop_due():
+            self._guarded(self._lose_connection)
+            self.finished = True
+            return
         self.steps += 1
         if self._guarded(self.link.step) is False:
             self.finished = True
         if self.timeouts is not None:
             self._note_activity()
+
+    # ---- the environment's liberties ---------------------------------------------
+    def _may_reenter(self, side, start, end):
+        """Synchronous pipe: bytes written towards a protocol that is inside dataReceived may be handed over at once (re-entering it)
+        only if that keeps the stream order, i.e. nothing of what it was given so far can be unconsumed: the stream handed to it so far
+        (the running piece and whatever was handed over, nested, since) ends with a line end, and the protocol has begun to handle the
+        last of those lines (it is reacting to the end of what it was given - the only place an SMTP peer that does not pipeline is
+        ever answered).  This is what a pipe whose write() simply calls the peer's dataReceived does."""
+        buf = self.link.delivered[side]
+        ok = buf.endswith(b"\r\n") and self.lines_in[side] == buf.count(b"\r\n")
+        if ok:
+            self.sim.probe("sync_client_reentered_at_line_end" if side == "A" else "sync_server_reentered_at_line_end")
+        return ok
+
+    def _pull_from_inside_write(self, t, data):
+        """A consumer that asks its pull producer for the next chunk as soon as it has taken one, from inside write() (bounded nesting)."""
+        if self._chained_on_write is not None:
+            self._chained_on_write(t, data)
+        if t.producer is not None and not t.streaming and not t.disconnected and self.pull_depth < self.pull_in_write:
+            self.pull_depth += 1
+            self.sim.probe("pull_inside_write")
+            if self.pull_depth >= 3:
+                self.sim.probe("pull_inside_write_depth_ge_3")
+            try:
+                t.producer.resumeProducing()
+            finally:
+                self.pull_depth -= 1
+
+    def _drop_due(self):
+        d = self.drop
+        if d is None or self.dropped:
+            return False
+        if d["phase"] == "anywhere":
+            return self.steps >= d["after"]
+        if self.data_count <= d["k"]:          # "body": so many events after the k-th DATA transaction began
+            return False
+        if self._drop_base is None:
+            self._drop_base = self.steps
+        return self.steps - self._drop_base >= d["after"]
+
+    def _lose_connection(self):
+        """Connection-loss fault: the network may still hand the server a few of the bytes in flight, then both peers lose the connection
+        (tape-chosen who notices first, cleanly or not); everything else in flight is gone."""
+        sim, link, d = self.sim, self.link, self.drop
+        self.dropped = True
+        q = link.flight["B"]
+        if d["tail"] != 0 and q and link.b.reading and not link.b.disconnected:
+            sim.probe("loss_after_a_last_partial_delivery")
+            link.do("deliver", "B", d["tail"])
+        got = link.delivered["B"]
+        spans = self.client.data_span
+        inside = bool(spans) and len(got) >= spans[-1][0] and (spans[-1][1] is None or len(got) < spans[-1][1]) and self.data_count == len(spans)
+        rest = bytes(got).rsplit(b"\r\n", 1)[-1]
+        if inside:
+            sim.probe("loss_inside_body")
+            if rest:
+                sim.probe("loss_inside_body_with_partial_line_at_server")
+            if rest in (b".", b".\r"):
+                sim.probe("loss_inside_body_right_after_line_initial_dot")
+            if spans[-1][1] is not None:
+                sim.probe("loss_inside_body_terminator_sent_not_arrived")
+        else:
+            sim.probe("loss_outside_body")
+        sim.event(self.name, "connection-lost", d["first"], d["clean"], len(got))
+        link.drop(d["first"], clean=d["clean"])
 
     def _note_activity(self):
         """A peer is active (not idle) when a complete line reaches it; the client also when it reads a piece of the body from its
@@ -494,6 +641,9 @@ class Session:
         per_data = {}
         for m in self.msgs:
             per_data.setdefault(m.idx, []).append(m)
+
+        if self.dropped:
+            return self._judge_truncated(per_data)
 
         # 1. the predicted defect gets its own signature: the end-to-end result is wrong
         #    AND the client's wire lacks exactly the dots of boundary lines
@@ -573,6 +723,77 @@ class Session:
                     sim.probe("refusal_with_two_recipients")
 
 
+    def _judge_truncated(self, per_data):
+        """The connection was lost somewhere in the session.  What the statement still says: whatever a server-side message was handed is
+        body content in order; a message is completed only if the client's terminator reached the server (and then it holds exactly the
+        body); nothing but the client's commands was executed; no reply inside a body."""
+        sim, client, link, hdr, chunk, messages, refuse = self.sim, self.client, self.link, self.hdr, self.chunk, self.messages, self.refuse
+        raised = self.raised
+        W = "lost-connection"
+        sim.check("protocol-raised", raised is None, raised and raised[0] + "-" + W, raised and raised[1])
+        srv_in = len(link.delivered["B"])
+        sim.check("all-messages-accepted", all(k < len(messages) for k in per_data), W,
+                  "DATA transactions seen by server: %r; the client has %d messages" % (sorted(per_data), len(messages)))
+        for k in sorted(per_data):
+            frm, rcpts, body, lines = messages[k]
+            _, exp = expected_lines(lines, hdr)
+            span = client.data_span[k] if k < len(client.data_span) else None
+            arrived = span is not None and span[1] is not None and srv_in >= span[1]
+            ms = per_data[k]
+            sim.check("one-message-per-recipient", len(ms) <= len(rcpts), W, "msg %d: %d recorders for %d rcpts" % (k, len(ms), len(rcpts)))
+            for j, m in enumerate(ms):
+                sim.check("body-lines-prefix", m.lines == exp[:len(m.lines)], W,
+                          lambda: "chunk=%d msg %d rcpt %d body=%r expected a prefix of %r got %r" % (chunk, k, j, body, exp, m.lines))
+                if m.refused:
+                    sim.check("refused-message-not-completed", not m.eom, W,
+                              lambda: "msg %d rcpt %d refused after %d lines, yet eomReceived x%d" % (k, j, len(m.lines), len(m.eom)))
+                if not m.eom:
+                    sim.probe("message_left_incomplete_by_the_loss")
+                    continue
+                sim.check("ends-at-terminator", arrived and m.eom[0] == (True, k + 1), W,
+                          lambda: "msg %d rcpt %d: eomReceived (file_eof, terminators sent)=%r although the server had been handed %d bytes of the client's "
+                                  "stream and the DATA section incl. its terminator spans %r; message lines %r of %r"
+                                  % (k, j, m.eom[0], srv_in, span, m.lines, exp))
+                sim.check("body-lines-equal", m.lines == exp, W,
+                          lambda: "chunk=%d msg %d body=%r expected %r got %r" % (chunk, k, body, exp, m.lines))
+                sim.check("eom-once", len(m.eom) == 1, W, "eomReceived x%d" % len(m.eom))
+        sim.check("commands-are-clients", self.server_cmds == client.cmds[:len(self.server_cmds)], W,
+                  lambda: "server executed %r; client sent %r" % (self.server_cmds, client.cmds))
+        early = [c for c in self.code_ctx if c[1] != c[2]]
+        sim.check("reply-only-after-terminator", not early, W,
+                  lambda: "replies (code, DATA transactions begun, terminators sent by the client) %r" % (early[:4],))
+        want_err = [r["code"] for r in refuse if r]
+        errs = [c for c in self.codes if not 200 <= c < 400]
+        sim.check("no-error-replies", errs == want_err[:len(errs)], W,
+                  lambda: "reply codes %r; error replies expected only for the refused transactions: %r" % (self.codes, want_err))
+        want_sent = [(refuse[k]["code"] if refuse[k] else 250, len(m[1])) for k, m in enumerate(messages)]
+        sim.check("client-told-sent", client.sent == want_sent[:len(client.sent)], W, "sentMail calls %r expected a prefix of %r" % (client.sent, want_sent))
+        sim.check("closed", link.a.disconnected and link.b.disconnected, W, "a=%r b=%r" % (link.a.disconnected, link.b.disconnected))
+
+
+DROP_AFTER = [0, 1, 2, 3, 5, 8, 13, 21, 34, 55, 89, 144, 233, 400]
+PULL_DEPTHS = [1, 2, 6, 40]
+
+
+def gen_env(sim, tag, nmsgs):
+    """The liberties the environment of one session takes (all off in most sessions): a connection loss, a synchronous in-memory pipe
+    as the link, a client transport that pulls the next chunk from inside write()."""
+    env = {"drop": None, "sync": None, "pull_in_write": 0}
+    if DROP_P > 0 and sim.draw_bool(DROP_P, "drop" + tag):
+        env["drop"] = {"phase": sim.draw_weighted([("body", 3), ("anywhere", 1)], "drop_phase"),
+                       "k": sim.draw_int(0, nmsgs - 1, "drop_msg"),
+                       "after": sim.draw_choice(DROP_AFTER, "drop_after"),
+                       "first": sim.draw_choice(["A", "B"], "drop_first"),
+                       "clean": sim.draw_bool(0.5, "drop_clean"),
+                       "tail": sim.draw_choice([0, 1, 2, 3, None], "drop_tail")}
+    if SYNC_LINK_P > 0 and sim.draw_bool(SYNC_LINK_P, "sync_link" + tag):
+        env["sync"] = {"pieces": sim.draw_choice(["mixed", "whole", "bytewise"], "sync_pieces"),
+                       "reenter": SYNC_REENTER_P > 0 and sim.draw_bool(SYNC_REENTER_P, "sync_reenter")}
+    if PULL_IN_WRITE_P > 0 and sim.draw_bool(PULL_IN_WRITE_P, "pull_in_write" + tag):
+        env["pull_in_write"] = sim.draw_choice(PULL_DEPTHS, "pull_in_write_depth")
+    return env
+
+
 def run(sim):
     chunk = sim.draw_choice(CHUNKS, "chunk")
     avoid = sim.draw_bool(0.1, "avoid_boundary_dots")
@@ -588,7 +809,10 @@ def run(sim):
     timed = sim.draw_bool(0.3, "timed")
     timeouts = (sim.draw_choice(SERVER_TIMEOUTS, "server_timeout"), sim.draw_choice(CLIENT_TIMEOUTS, "client_timeout")) if timed else None
     sim.config.update({"pull_on_register": sync_pull, "timeouts": timeouts})
-    sessions = [Session(sim, "P1", chunk, esmtp, hdr, messages, refuse, sync_pull, timeouts)]
+    # round 6: connection loss, synchronous pipe, consumer pulling from inside write()
+    env = gen_env(sim, "", nmsgs)
+    sim.config["env"] = env
+    sessions = [Session(sim, "P1", chunk, esmtp, hdr, messages, refuse, sync_pull, timeouts, env)]
     # a second, independent client/server pair whose session runs at the same time (its events alternate with the first one's)
     delay2 = 0
     if sim.draw_bool(0.3, "second_pair"):
@@ -602,8 +826,9 @@ def run(sim):
                            "refuse2": refuse2, "delay2": delay2})
         sync_pull2 = sim.draw_bool(0.5, "pull_on_register2")
         timeouts2 = (sim.draw_choice(SERVER_TIMEOUTS, "server_timeout2"), sim.draw_choice(CLIENT_TIMEOUTS, "client_timeout2")) if timed else None
-        sim.config.update({"pull_on_register2": sync_pull2, "timeouts2": timeouts2})
-        sessions.append(Session(sim, "P2", chunk2, esmtp2, hdr2, messages2, refuse2, sync_pull2, timeouts2))
+        env2 = gen_env(sim, "2", len(messages2))
+        sim.config.update({"pull_on_register2": sync_pull2, "timeouts2": timeouts2, "env2": env2})
+        sessions.append(Session(sim, "P2", chunk2, esmtp2, hdr2, messages2, refuse2, sync_pull2, timeouts2, env2))
 
     old_chunk = basic.FileSender.CHUNK_SIZE
     basic.FileSender.CHUNK_SIZE = max(s.chunk for s in sessions)    # each session's file hands out at most its own chunk size per read
@@ -647,8 +872,8 @@ def run(sim):
 
 
 MUTANTS = [
-    "(all run on top of the candidate fix for transformChunk, so that only the mutant can fail)",
-    "unfixed tree: transformChunk stuffs only after CRLF inside one chunk -> caught (leading-dot-not-stuffed:body-start / :chunk-start) [genuine]",
+    "(all run on top of the fix for transformChunk - since in /repo e83a6d0 - so that only the mutant can fail)",
+    "unfixed tree (e83a6d0 reverted): transformChunk stuffs only after CRLF inside one chunk -> caught (leading-dot-not-stuffed:body-start / :chunk-start) [genuine, REPAIRED in /repo e83a6d0]",
     "smtp.py SMTP.dataLineReceived: un-stuffing applied twice -> caught (body-lines-equal)",
     "smtp.py SMTPClient.transformChunk: in-chunk CRLF. -> CRLF.. replacement removed -> caught (body-lines-equal, all-messages-accepted, protocol-raised)",
     "smtp.py SMTPClient.finishedFileTransfer: lastsent test inverted (extra empty line) -> caught (body-lines-equal)",
@@ -668,4 +893,13 @@ MUTANTS = [
     "smtp.py SMTP.lineReceived: idle timeout re-armed in COMMAND mode only -> caught (body-lines-equal, all-messages-accepted, commands-are-clients; needs time passing inside a body)",
     "smtp.py SMTPClient.transformChunk: resetTimeout() removed -> caught (all-messages-accepted, commands-shape; needs a client timeout and time passing inside a body)",
     "smtp.py SMTPClient.lineReceived: resetTimeout() removed -> caught (all-messages-accepted; needs a client timeout and time passing)",
+    "round 6, connection loss / synchronous pipe / pull from inside write():",
+    "CAUGHT seeded C40-r6a (SMTP.connectionLost takes a lone '.' left in the line buffer for the end-of-data line) -> ends-at-terminator:lost-connection, "
+    "reply-only-after-terminator:lost-connection (quick; needs a loss right behind the first dot of a stuffed body line)",
+    "smtp.py SMTP.connectionLost: in DATA mode the unterminated rest of the line buffer is handed to the messages as a last line -> caught (body-lines-prefix:lost-connection)",
+    "smtp.py SMTP.connectionLost: in DATA mode the messages are completed (eomReceived) instead of told connectionLost -> caught (ends-at-terminator:lost-connection)",
+    "unfixed tree (99f3a0f reverted), SMTP.dataLineReceived: `del self.__messages` after the DeferredList fired -> caught (protocol-raised:AttributeError, eom-once, all-messages-accepted; "
+    "needs the synchronous pipe with re-entry and a second message) [genuine, REPAIRED in /repo 99f3a0f: the recipients' list is forgotten before the reply is sent]",
+    "unfixed tree (785db9d reverted), basic.py FileSender.resumeProducing: lastSent assigned after consumer.write() -> caught (body-lines-equal, body-lines-prefix:lost-connection: spurious "
+    "trailing empty line; needs pulls from inside write()) [genuine, REPAIRED in /repo 785db9d: lastSent is recorded before the chunk is handed to the consumer]",
 ]
